@@ -276,15 +276,16 @@ def show(case, out):
 
 def run(ctx):
     ctx.regen_consts()
-    ctx.prove("props/C03.v", THEOREMS, extra_trusted=[
+    extra = [
         "model coq/model/PutValidation.v (hand-written transcription of put_validation.rs / data_payments.rs) tied to "
         "the source by this run's correspondence and by the regenerated constants (RecordKind wire tags, "
         "QUOTE_EXPIRATION_SECS, register limits, presence of the quote-content and record-key checks)",
         "harness/crates/c03 (real Node around a harness-driven Network, JSON-RPC contract stub), tools/props/putval.py "
-        "and C03.py (generator, oracle, canonicaliser)"])
+        "and C03.py (generator, oracle, canonicaliser)"]
+    ctx.prove("props/C03.v", THEOREMS, extra_trusted=extra)
     binary = ctx.cargo_build("c03")
     cases = ctx.corpus() + ([] if ctx.replay else gen(ctx))
     ctx.cov["exhaustive"] = not ctx.replay
-    ctx.pipeline(cases, binary, oracle, pv.model_term, IMPORTS, nontrivial=nontrivial, show=show, shard_size=120,
+    pv.pipeline(ctx, "props/C03.v", THEOREMS, extra, cases, binary, oracle, pv.model_term, IMPORTS, nontrivial=nontrivial, show=show, shard_size=120,
                  relation="Node::validate_and_store_record / store_replicated_in_record (results, PutLocalRecord "
                           "commands, payment notifications, eth_calls, final store) == PutValidation.sched_run")
